@@ -129,6 +129,12 @@ func ObserveBool(name string, v bool)  { cur.Observed[name] = strconv.FormatBool
 func ObserveStr(name string, v string) { cur.Observed[name] = v }
 
 func MapOrderNondet(on bool)          {}
+
+// MapOrderReps: how often a harness repeats a map-order dependent call. Under
+// the engine the iteration order is a symbolic choice, so once; natively the
+// order is random, so often enough that every order the engine can report
+// (probability >= 1/8 per call) shows up.
+func MapOrderReps() int { return 200 }
 func Unreachable()                    { panic(AssumeFalse{}) }
 func Thorough() bool                  { return cur != nil && cur.thorough }
 
@@ -137,6 +143,11 @@ func Thorough() bool                  { return cur != nil && cur.thorough }
 var HostFuncs = map[string]func(string) string{}
 
 func HostCall(name, arg string) string { return HostFuncs[name](arg) }
+
+// HostCallInt is HostCall(name, prefix+itoa(i)); under the engine i may be symbolic.
+func HostCallInt(name, prefix string, i int64) string {
+	return HostFuncs[name](prefix + strconv.FormatInt(i, 10))
+}
 
 // Clock helpers used by redirected call sites.
 func Now() time.Time {
